@@ -193,9 +193,26 @@ theorem nested_none_left' (w : World) (t : FdTable) (outer : List Redir) (ki : K
     · exact h4
     · exact absurd hsv (h2 s hs)
 
+theorem runIO_cases (w : World) (t : FdTable) (wr : Bool) (fd : Fd) (arg : Nat) (rs : List Redir) (prev : Nat) :
+    ((runIO w t wr fd arg rs prev).io = none ∧ (runIO w t wr fd arg rs prev).tr = runCommand w t .regular rs prev) ∨
+    ((runIO w t wr fd arg rs prev).io.isSome = true ∧
+      (runIO w t wr fd arg rs prev).tr.t =
+        undoRedirs (performRedirs worldOracle w t rs).t (performRedirs worldOracle w t rs).saved ∧
+      (runIO w t wr fd arg rs prev).tr.w =
+        (ioBody (performRedirs worldOracle w t rs).w (performRedirs worldOracle w t rs).t wr fd arg).1) := by
+  unfold runIO
+  by_cases he : (performRedirs worldOracle w t rs).err.isSome = true
+  · rw [if_pos he]; exact .inl ⟨rfl, rfl⟩
+  · rw [if_neg he]; exact .inr ⟨rfl, rfl, rfl⟩
+
 theorem runCmd_wf (w : World) (t : FdTable) (prev : Nat) (c : Cmd) (hw : WF t) : WF (runCmd w t prev c).tr.t := by
   cases c with
   | plain k rs => exact runCommand_wf w t k rs prev hw
+  | io wr fd arg rs =>
+    simp only [runCmd]
+    rcases runIO_cases w t wr fd arg rs prev with ⟨_, h⟩ | ⟨_, h, _⟩
+    · rw [h]; exact runCommand_wf w t .regular rs prev hw
+    · rw [h]; exact (performRedirs_wf worldOracle w t rs hw).undoRedirs _
   | nested outer ki inner =>
     simp only [runCmd]
     cases hin : (runNested w t outer ki inner prev).inner with
@@ -216,6 +233,11 @@ theorem runCmd_none_left (w : World) (t : FdTable) (prev : Nat) (c : Cmd) (hw : 
     (h : (runCmd w t prev c).tr.t.isCloexec fd = true) : t.isCloexec fd = true := by
   cases c with
   | plain k rs => exact runCommand_none_left w t k rs prev hw fd h
+  | io wr fd0 arg rs =>
+    simp only [runCmd] at h
+    rcases runIO_cases w t wr fd0 arg rs prev with ⟨_, h1⟩ | ⟨_, h1, _⟩
+    · rw [h1] at h; exact runCommand_none_left w t .regular rs prev hw fd h
+    · rw [h1, isCloexec_congr ((undo_restores worldOracle w t rs hw).2 fd)] at h; exact h
   | nested outer ki inner => exact nested_none_left' w t outer ki inner prev hw fd h
 
 theorem runScript2_plain_lemma (w : World) (t : FdTable) (prev : Nat) (cmds : List (Kind × List Redir)) :
